@@ -597,6 +597,36 @@ def h_mf_commute(env, n, cases, canary=False, after_compress=False):
                        f"A={list(wa)} B={list(wb)}: got {got}, expected {all(ref_terms)}")
 
 
+def h_conversion_alias(env, direction):
+    """conversions between the plain and the annotated qubit operator hand out SEPARATE objects: in-place arithmetic (+=, -=, *=, /=)
+    on the converted operator leaves the source unchanged, and vice versa (enumerated; coefficients symbolic)"""
+    from tangelo.toolboxes.operators import QubitOperator, QubitHamiltonian
+    from tangelo.toolboxes.operators.operators import qubitop_to_qubitham
+    words = [((0, "X"), (1, "Y")), ((0, "Z"),), (), ((1, "Z"), (2, "X"))]
+    cs = [env.real(f"c{i}", lo=-3, hi=3) for i in range(len(words))]
+    if direction == "op->ham":
+        src = _qop(words, cs)
+        conv = qubitop_to_qubitham(src, "JW", False)
+    else:
+        src = QubitHamiltonian(mapping="BK", up_then_down=True)
+        src.terms = dict(zip(words, cs))
+        conv = src.to_qubitoperator()
+    x, y, _ = A.d_vectors(dict(conv.terms), dict(zip(words, cs)))
+    env.check_vec_eq(x, y, f"{direction}: the converted operator has the terms of the source")
+    for who, victim, label in ((conv, src, "the source"), (src, conv, "the converted operator")):
+        # the other operand has the class (and annotations) of the operator being updated
+        other = QubitHamiltonian(mapping=who.mapping, up_then_down=who.up_then_down) if isinstance(who, QubitHamiltonian) else QubitOperator()
+        other.terms = {((0, "Z"),): 1.0, ((2, "Y"),): -0.5}
+        snap = dict(victim.terms)
+        who += other
+        who *= 2.0
+        who -= other
+        who /= 4.0
+        who.compress()
+        env.check_true(set(victim.terms) == set(snap) and all(victim.terms[k_] is snap[k_] or victim.terms[k_] == snap[k_] for k_ in snap),
+                       f"{direction}: in-place arithmetic on {'the converted operator' if who is conv else 'the source'} leaves {label} unchanged")
+
+
 def h_mf_history(env, n, words, removal, tol):
     """histories: after the documented in-place updates remove_terms(indices) (int, list or array form, index 0 included) and
     compress(abs_tol) (an explicit 0 included) every form of the operator - terms, exported QubitOperator, integer/factors arrays -
@@ -803,6 +833,8 @@ def shapes(tier, seed):
     asym3 = [((0, "X"), (2, "Z")), ((0, "Z"), (1, "Y")), ((2, "X"),), ((0, "Y"), (1, "X"), (2, "Z"))]
     out.append(Shape("multiform/commute/n3/after-compress", h_mf_commute,
                      dict(n=3, cases=[((a,), (b,)) for a in asym3 for b in asym3], after_compress=True), modules=MODS))
+    for dir_ in ("op->ham", "ham->op"):
+        out.append(Shape(f"convert/alias/{dir_}", h_conversion_alias, dict(direction=dir_), modules=MODS))
     hist_words = [((0, "X"), (1, "Y")), ((0, "Z"),), ((1, "X"),), ((0, "Y"), (1, "Y")), ((1, "Z"),), ((0, "X"),)]
     for i_, (rm_, tol_) in enumerate([(0, None), ([0], None), ((0,), None), (1, None), ([0, 2], None), ((5, 0), None), ([], None), (None, 0), (None, 0.0),
                                       (None, 1e-9), (None, 1e-12), (None, 2.0), (0, 0), ([1, 3], 1e-9)]):
